@@ -501,6 +501,20 @@ findInsertionPointLinearSearch(
 
 
 
+// Normalize so that a document node, or a document fragment
+// node, owns itself, which is not how DOM works...
+inline const XalanNode*
+getOwner(const XalanNode&   node)
+{
+    const XalanNode::NodeType   theType = node.getNodeType();
+
+    return theType == XalanNode::DOCUMENT_NODE ||
+           theType == XalanNode::DOCUMENT_FRAGMENT_NODE ?
+                &node : node.getOwnerDocument();
+}
+
+
+
 struct DocumentPredicate
 {
     bool
@@ -508,25 +522,9 @@ struct DocumentPredicate
             const XalanNode&    node1,
             const XalanNode&    node2) const
     {
-        // Always order a document node, or a node from another
-        // document after another node...
-        const XalanNode::NodeType   node1Type =
-            node1.getNodeType();
-
-        const XalanNode::NodeType   node2Type =
-            node2.getNodeType();
-
-        if ((node1Type == XalanNode::DOCUMENT_NODE ||
-             node1Type == XalanNode::DOCUMENT_FRAGMENT_NODE) &&
-            (node2Type == XalanNode::DOCUMENT_NODE ||
-             node2Type == XalanNode::DOCUMENT_FRAGMENT_NODE))
-        {
-            return true;
-        }
-        else
-        {
-            return node1.getOwnerDocument() != node2.getOwnerDocument();
-        }
+        // Always order a node from another document
+        // after another node...
+        return getOwner(node1) != getOwner(node2);
     }
 };
 
@@ -539,8 +537,6 @@ struct IndexPredicate
             const XalanNode&    node1,
             const XalanNode&    node2) const
     {
-        assert(node1.getOwnerDocument() == node2.getOwnerDocument());
-
         return m_documentPredicate(node1, node2) == true ? true : node1.getIndex() > node2.getIndex() ? true : false;
     }
 
@@ -566,14 +562,19 @@ struct ExecutionContextPredicate
         {
             return true;
         }
+        else if (getOwner(node1) == &node1)
+        {
+            // The document node is before all of the
+            // other nodes of the document...
+            return false;
+        }
+        else if (getOwner(node2) == &node2)
+        {
+            return true;
+        }
         else
         {
             assert(node1.getOwnerDocument() == node2.getOwnerDocument());
-            assert(
-                node1.getNodeType() != XalanNode::DOCUMENT_NODE &&
-                node1.getNodeType() != XalanNode::DOCUMENT_FRAGMENT_NODE &&
-                node2.getNodeType() != XalanNode::DOCUMENT_NODE &&
-                node2.getNodeType() != XalanNode::DOCUMENT_FRAGMENT_NODE);
 
             return  m_executionContext.isNodeAfter(node1, node2);
         }
@@ -629,7 +630,7 @@ MutableNodeRefList::addNodeInDocOrder(
                 assert(theFirstNodeOwner != 0);
 
                 if (node->isIndexed() == true &&
-                    node->getOwnerDocument() == theFirstNodeOwner)
+                    getOwner(*node) == theFirstNodeOwner)
                 {
                     // If it's indexed, then see if the entire list consists of
                     // nodes from the same document.
